@@ -38,6 +38,45 @@ eq("C11", "src/issuance.rs", "let mut enc = sha256d::Hash::engine();\n          
 eq("C03", "src/sighash.rs", "        self.tx.version.consensus_encode(&mut writer)?;\n\n        // nLockTime (4): the nLockTime of the transaction.",
    "        let version = self.tx.version;\n        version.consensus_encode(&mut writer)?;\n\n        // nLockTime (4): the nLockTime of the transaction.", "local")
 
+GI_OLD = """            let out = self.tx
+                .output
+                .get(input_index)
+                .ok_or(Error::SingleWithoutCorrespondingOutput {
+                    index: input_index,
+                    outputs_size: self.tx.output.len(),
+                })?;
+            out.consensus_encode(&mut enc)?;"""
+GI_NEW = """            if input_index >= self.tx.output.len() {
+                return Err(Error::SingleWithoutCorrespondingOutput {
+                    index: input_index,
+                    outputs_size: self.tx.output.len(),
+                });
+            }
+            let out = &self.tx.output[input_index];
+            out.consensus_encode(&mut enc)?;"""
+for P in ("C10", "C03", "C13"):
+    eq(P, "src/sighash.rs", GI_OLD, GI_NEW, "get().ok_or()? as an explicit bounds test followed by indexing")
+eq("C08", "src/pset/map/output.rs", """            value: match (self.amount_comm, self.amount) {
+                (Some(comm), _) => confidential::Value::Confidential(comm),
+                (None, Some(x)) => confidential::Value::Explicit(x),
+                (None, None) => confidential::Value::Null,
+            },""", """            value: self
+                .amount_comm
+                .map(confidential::Value::Confidential)
+                .or(self.amount.map(confidential::Value::Explicit))
+                .unwrap_or_default(),""", "Option combinators with the same priority")
+eq("C01", "src/transaction.rs", """        Ok(TxOut {
+            asset: Decodable::consensus_decode(&mut d)?,
+            value: Decodable::consensus_decode(&mut d)?,
+            nonce: Decodable::consensus_decode(&mut d)?,
+            script_pubkey: Decodable::consensus_decode(&mut d)?,
+            witness: TxOutWitness::default(),
+        })""", """        let asset = Decodable::consensus_decode(&mut d)?;
+        let value = Decodable::consensus_decode(&mut d)?;
+        let nonce = Decodable::consensus_decode(&mut d)?;
+        let script_pubkey = Decodable::consensus_decode(&mut d)?;
+        Ok(TxOut { asset, value, nonce, script_pubkey, witness: TxOutWitness::default() })""", "locals")
+
 only = sys.argv[1] if len(sys.argv) > 1 else None
 bad = 0
 for prop, path, old, new, why in R:
